@@ -1407,6 +1407,11 @@ def _x(n, env):
         raise Unrecognised("T11: reference to %s" % nm)
     if k == "MemberExpr":
         path = _member_path(e)
+        cm = _cmd_member(e)
+        if cm in CMDFLAG:
+            return "(D.cmdD s.cmd).%s" % CMDFLAG[cm], "bool"
+        if cm == "var_num":
+            return "(D.cmdD s.cmd).varNum", "nat"
         if path == "commands_num":
             return "D.commandsNum", "nat"
         if path in FIELD and FIELD[path][1] in ("nat", "bool"):
@@ -1434,6 +1439,15 @@ def _x(n, env):
             b = strip(a["inner"][0]) if a.get("kind") == "MemberExpr" else {}
             if a.get("name") == "name" and b.get("kind") == "DeclRefExpr" and b["referencedDecl"]["name"] == "cmd":
                 return "cmd.name.length", "nat"
+        if fn == "get_atcmd_buf_size" and _is_self_call(e, "get_atcmd_buf_size"):
+            return "D.cmdCap", "nat"
+        if fn == "strlen" and _is_self_call(e["inner"][1], "get_atcmd_buf"):
+            return "strlenOf (region D s .cmd 0)", "nat"
+        if fn == "is_variables_access_possible" and _member_path(e["inner"][2]) == "cmd":
+            acc = strip(e["inner"][3]).get("referencedDecl", {}).get("name")
+            m = {"CAT_VAR_ACCESS_WRITE_ONLY": ".wo", "CAT_VAR_ACCESS_READ_ONLY": ".ro"}
+            if acc in m:
+                return "varsAccessible (D.cmdD s.cmd) %s" % m[acc], "bool"
         if fn == "get_cmd_state" and _member_path(e["inner"][2]) == "index":
             t = env.fresh()
             env.pre.append("let (s, %s) := getCmdState D s s.index" % t)
@@ -1448,6 +1462,15 @@ def _x(n, env):
             a, _ = _x(e["inner"][0], env)
             b, _ = _x(e["inner"][1], env)
             return "%s %s %s" % (a, op, b), "nat"
+        cmh = _cmd_member(e["inner"][0])
+        if op in ("==", "!=") and cmh in CMDPTR:
+            if _rhs(e["inner"][1], "ptr", [], {}) != "none":
+                raise Unrecognised("T11: handler compared with something other than NULL")
+            return ("!(D.cmdD s.cmd).%s" if op == "==" else "(D.cmdD s.cmd).%s") % CMDPTR[cmh], "bool"
+        if op in ("==", "!=") and cmh == "var":
+            if _rhs(e["inner"][1], "ptr", [], {}) != "none":
+                raise Unrecognised("T11: var compared with something other than NULL")
+            return ("(D.cmdD s.cmd).vars.isNone" if op == "==" else "(D.cmdD s.cmd).vars.isSome"), "bool"
         if op in ("==", "!=") and _member_path(e["inner"][0]) == "cmd":
             if _rhs(e["inner"][1], "ptr", [], {}) != "none":
                 raise Unrecognised("T11: cmd compared with something other than NULL")
@@ -1460,15 +1483,15 @@ def _x(n, env):
                 return (a if pos else "!" + a), "bool"
             b, _ = _x(e["inner"][1], env)
             return "decide (%s %s %s)" % (a, {"==": "=", "!=": "≠", ">=": "≥", "<=": "≤"}.get(op, op), b), "bool"
-        if op == "&&":
+        if op in ("&&", "||"):
             a, _ = _x(e["inner"][0], env)
             b, _ = _x(e["inner"][1], env)
-            return "(%s && %s)" % (a, b), "bool"
+            return "(%s %s %s)" % (a, op, b), "bool"
     raise Unrecognised("T11: unrecognised expression (%s)" % k)
 
 
 def _has_return(sts):
-    return any(x.get("kind") == "ReturnStmt" for st in sts for x in _walk(st))
+    return any(x.get("kind") in ("ReturnStmt", "BreakStmt") for st in sts for x in _walk(st))
 
 
 def _cps(sts, k, ind):
@@ -1482,6 +1505,25 @@ def _cps(sts, k, ind):
     if kind == "ReturnStmt":
         _check_ret(st)
         return "s"
+    if kind == "BreakStmt":
+        return "s"          # only used inside a switch that is followed by nothing but `return CAT_STATUS_BUSY`
+    if kind == "SwitchStmt":
+        if _member_path(st["inner"][0]) != "current_char":
+            raise Unrecognised("T11: switch on something other than current_char")
+        if any(x.get("kind") != "ReturnStmt" for x in rest if not is_noise(x)):
+            raise Unrecognised("T11: statements after the switch")
+        chain, default = [], "s"
+        for labels, stmts in switch_arms(st, None, None):
+            if "default" in labels:
+                if len(labels) != 1:
+                    raise Unrecognised("T11: default shares an arm")
+                default = _cps(stmts, "s", ind + "  ")
+            else:
+                chain.append((" || ".join("s.currentChar == %d" % int(l) for l in labels), _cps(stmts, "s", ind + "  ")))
+        txt = ""
+        for cond, ex in chain:
+            txt += "if %s then %s\n%selse " % (cond, ex, ind)
+        return "(" + txt + default + ")"
     if kind == "DeclStmt":
         out = []
         for d in st.get("inner", []):
@@ -1516,7 +1558,21 @@ def _cps(sts, k, ind):
             env = _Env()
             v, _ = _x(rhs, env)
             return "(let cmd_name_len := %s\n%s%s)" % (v, ind, _cps(rest, k, ind))
+        if lhs.get("kind") == "ArraySubscriptExpr" and _is_self_call(lhs["inner"][0], "get_atcmd_buf"):
+            # get_atcmd_buf(self)[self->length++] = x   /   get_atcmd_buf(self)[self->length] = 0
+            i = strip(lhs["inner"][1])
+            env = _Env()
+            v, _ = _x(rhs, env)
+            if i.get("kind") == "UnaryOperator" and i.get("opcode") == "++" and i.get("isPostfix") and _member_path(i["inner"][0]) == "length":
+                return "(let s : St := setB D s .cmd s.length %s\n%slet s : St := { s with length := s.length + 1 }\n%s%s)" % (
+                    v, ind, ind, _cps(rest, k, ind))
+            if _member_path(i) == "length":
+                return "(let s : St := setB D s .cmd s.length %s\n%s%s)" % (v, ind, _cps(rest, k, ind))
+            raise Unrecognised("T11: store into the command buffer at an unrecognised index")
         path = _member_path(lhs)
+        if path == "var":
+            # self->var = &self->cmd->var[self->index]: a cached pointer the model does not keep (it indexes on use)
+            return _cps(rest, k, ind)
         if path == "cmd" and rhs.get("kind") == "CallExpr" and \
                 strip(rhs["inner"][0]).get("referencedDecl", {}).get("name") == "get_command_by_index" and _member_path(rhs["inner"][2]) == "index":
             return "(let s : St := { s with cmd := some s.index }\n%s%s)" % (ind, _cps(rest, k, ind))
@@ -1543,11 +1599,24 @@ def _cps(sts, k, ind):
             return "(let s : St := setCmdState D s s.index %s\n%s%s)" % (v["value"], ind, _cps(rest, k, ind))
         if fn in STEP_CALL and "{f}" not in STEP_CALL[fn]:
             return "(let s : St := %s\n%s%s)" % (STEP_CALL[fn], ind, _cps(rest, k, ind))
+        if fn in STEP_CALL:
+            nm, fsm = _call_of(e)
+            if fsm:
+                return "(let s : St := %s\n%s%s)" % (STEP_CALL[fn].replace("{f}", fsm), ind, _cps(rest, k, ind))
     raise Unrecognised("T11: unrecognised statement (%s)" % kind)
 
 
+def t11_body_after_read(ast, name):
+    _, body = find_fn(ast, name)
+    if not _guarded_read_first(body):
+        raise Unrecognised("T11: %s does not start with the guarded read" % name)
+    sts = [x for x in body.get("inner", []) if not is_noise(x)]
+    return ("/-- `%s` of src/cat.c, after its guarded read -/\ndef %s_body (D : Desc) (s : St) : St :=\n  %s"
+            % (name, name, _cps(sts[1:], "s", "    ")))
+
+
 def t11(ast):
-    defs = []
+    defs = [t11_body_after_read(ast, "parse_command_args")]
     for name in T11_FUNCS:
         _, body = find_fn(ast, name)
         sts = [x for x in body.get("inner", []) if not is_noise(x)]
